@@ -248,5 +248,5 @@ def run_inst(spec, run):
         run.validate(ctx, conc, lambda m: {"val": [S.model_int(m, val.lower), S.model_int(m, val.upper)]}, extremes=plh.extremes(env), known=kn)
         run.sample({"model": pl.show(model_spec), "json_keys": sorted(j.keys()), "path_condition": [str(z3.simplify(c)) for c in ctx.pc][:5]})
 
-    st = S.explore(fn, on_path, max_paths=8000, wall=900)
+    st = S.explore(fn, on_path, max_paths=30000, wall=2400)
     return run.result(st)
